@@ -1,7 +1,7 @@
 """JSON encoding of index objects and small arrays so that a history is a self-contained file."""
 import numpy as np
 
-_DT = {"f8": np.float64, "f4": np.float32, "f2": np.float16, "i8": np.int64, "i4": np.int32, "b1": np.bool_}
+_DT = {"f8": np.float64, "f4": np.float32, "f2": np.float16, "i8": np.int64, "i4": np.int32, "i2": np.int16, "u1": np.uint8, "b1": np.bool_}
 _RDT = {np.dtype(v).str[1:]: k for k, v in _DT.items()}
 
 
